@@ -303,6 +303,12 @@ try:
         first = registry.get_crypt_handler(name.upper())
     elif via == "alias_dash":
         first = registry.get_crypt_handler(name.replace("_", "-"))
+    elif via == "proxy_alias_upper":
+        first = getattr(PH, name.upper())
+    elif via == "proxy_alias_title":
+        first = getattr(PH, name.title())
+    elif via == "proxy_alias_dash":
+        first = getattr(PH, name.replace("_", "-"))
     elif via == "context":
         from passlib.context import CryptContext
         first = CryptContext([name]).handler(name, unconfigured=True)
@@ -319,6 +325,9 @@ try:
     loaded = registry.list_crypt_handlers(loaded_only=True)
     out["loaded_after"] = name in loaded
     out["misfiled"] = [k for k in loaded if getattr(registry.get_crypt_handler(k), "name", None) != k]
+    # every name the registry lists (loaded or not) must load a hasher carrying exactly that name
+    out["misfiled"] += [k for k in registry.list_crypt_handlers() if k not in loaded and k != k.lower()]
+    out["misfiled"] += [k for k in vars(PH) if not k.startswith("_") and getattr(vars(PH)[k], "name", k) != k]
     out["is_handler"] = bool(registry.is_crypt_handler(a))
 except BaseException as e:
     out["error"] = type(e).__name__
@@ -629,7 +638,7 @@ def run(ctx):
         small.append({"part": "import_order", "order": list(perm) + ["passlib.registry"], "n": n})
     # registry
     reg = []
-    vias = ("registry", "proxy", "import", "alias_upper", "alias_dash", "context")
+    vias = ("registry", "proxy", "import", "alias_upper", "alias_dash", "context", "proxy_alias_upper", "proxy_alias_title", "proxy_alias_dash")
     for name in HS.all_names():
         for via in vias:
             reg.append({"part": "registry", "name": name, "via": via})
